@@ -307,6 +307,12 @@ def run(ck):
     # pyrochlore all-in-all-out ...): the rotated spin cartrot.s_i must be (a phase times) the spin of the image atom
     tex = latt.texture_specs()
     afm += tex
+    # multi-chemistry non-symmorphic crystals, the more symmetric sublattice listed first and last (indexmap must have one permutation
+    # per chemistry, each matching rot.u + trans for EVERY chemistry)
+    ns = latt.nonsymmorphic_specs(rng, ck.n(2, 60))
+    if ck.quick:     # all equal-count crystals, the unequal-count / three-chemistry ones of two lattices, two random families
+        ns = [x for x in ns if not ("-4" in x.label or "-3chem" in x.label) or x.label.startswith(("ns-ortho-I", "ns-rect-glide"))]
+    afm += ns
     afmlabels = {a.label for a in afm}
     specs += afm
     for spec in specs:
